@@ -182,7 +182,7 @@ class C02(Spec):
     def cases(self, rng, tier, boost=1):
         quick = tier == 'quick'
         cs = []
-        reps = (2 if quick else 12) * boost
+        reps = (3 if quick else 16) * boost
         sizes_q = [3, 8, 20, 45, 90, 170]
         # (a) Int keys, collision classes
         for rep in range(reps):
